@@ -61,8 +61,6 @@ theorem updatePointParams_noUB (gs : List Group) (frames : List Frame) (np : Lis
   apply Outcome.noUB_ite
   · apply Outcome.noUB_andThen (gpIdx_noUB _ _ _); intro ⟨_, iU⟩
     apply Outcome.noUB_andThen (gpIdx_noUB _ _ _); intro ⟨_, iL⟩
-    apply Outcome.noUB_andThen (gpIdx_noUB _ _ _); intro ⟨_, iD⟩
-    apply Outcome.noUB_andThen (gpIdx_noUB _ _ _); intro ⟨_, iN⟩
     exact Outcome.noUB_ok _
   · exact Outcome.noUB_ok _
 
@@ -75,17 +73,18 @@ theorem updateAnalogParams_noUB (gs : List Group) (frames : List Frame) (na : Li
   apply Outcome.noUB_ite
   · apply Outcome.noUB_andThen (gpIdx_noUB _ _ _); intro ⟨_, iU⟩
     apply Outcome.noUB_andThen (gpIdx_noUB _ _ _); intro ⟨_, iL⟩
-    apply Outcome.noUB_andThen (gpIdx_noUB _ _ _); intro ⟨_, iD⟩
     apply Outcome.noUB_andThen (gpIdx_noUB _ _ _); intro ⟨_, iS⟩
     apply Outcome.noUB_andThen
       (Res.noUB_bind (atIdx_noUB _ _) (fun _ => Res.noUB_bind (atIdx_noUB _ _) (fun q => asFloat_noUB q))); intro sc
     apply Outcome.noUB_andThen (gpIdx_noUB _ _ _); intro ⟨_, iO⟩
     apply Outcome.noUB_andThen
       (Res.noUB_bind (atIdx_noUB _ _) (fun _ => Res.noUB_bind (atIdx_noUB _ _) (fun q => asInt_noUB q))); intro off
-    apply Outcome.noUB_andThen (gpIdx_noUB _ _ _); intro ⟨_, iN⟩
-    apply Outcome.noUB_andThen
-      (Res.noUB_bind (atIdx_noUB _ _) (fun _ => Res.noUB_bind (atIdx_noUB _ _) (fun q => asString_noUB q))); intro un
-    exact Outcome.noUB_ok _
+    dsimp only
+    split
+    · apply Outcome.noUB_andThen
+        (Res.noUB_bind (atIdx_noUB _ _) (fun _ => Res.noUB_bind (atIdx_noUB _ _) (fun q => asString_noUB q))); intro un
+      exact Outcome.noUB_ok _
+    · exact Outcome.noUB_ok _
   · exact Outcome.noUB_ok _
 
 theorem updateParameters_noUB (F : FloatOps) (s : C3D) (np na : List Bytes) : (updateParameters F s np na).NoUB := by
@@ -404,6 +403,12 @@ theorem init_WF : WFs C3D.init.groups := by
   rcases hg with rfl | rfl | rfl <;> simp only [List.mem_cons, List.not_mem_nil, or_false] at hp <;>
     rcases hp with rfl | rfl | rfl | rfl | rfl | rfl | rfl | rfl | rfl | rfl <;> simp [ParamWF, hasSize]
 
+theorem modIfPresent_WF (gs : List Group) (g p : Bytes) (gi : Nat) (f : Param → Param) (h : WFs gs) (hf : ∀ p, ParamWF (f p)) :
+    WFs (modIfPresent gs g p gi f) := by
+  unfold modIfPresent; split
+  · exact modParam_WF _ _ _ _ h hf
+  · exact h
+
 theorem updatePointParams_WF (gs : List Group) (frames : List Frame) (np : List Bytes) (h : WFs gs) :
     (updatePointParams gs frames np).All WFs := by
   unfold updatePointParams
@@ -422,10 +427,8 @@ theorem updatePointParams_WF (gs : List Group) (frames : List Frame) (np : List 
   simp only
   have h2 := modParam_WF g1 gP iUsed (·.setInts! [u64ToI32 (pointNames frames oldLabels np).length]) h1 (fun p => setInts!_WF p _)
   refine Outcome.all_andThen h2 fun ⟨_, iL⟩ _ => ?_
-  refine Outcome.all_andThen h2 fun ⟨_, iD⟩ _ => ?_
-  refine Outcome.all_andThen h2 fun ⟨_, iU⟩ _ => ?_
   simp only
-  exact modParam_WF _ _ _ _ (modParam_WF _ _ _ _ (modParam_WF _ _ _ _ h2 (fun p => setStrs!_WF p _)) (fun p => setStrs!_WF p _))
+  exact modIfPresent_WF _ _ _ _ _ (modIfPresent_WF _ _ _ _ _ (modParam_WF _ _ _ _ h2 (fun p => setStrs!_WF p _)) (fun p => setStrs!_WF p _))
     (fun p => setStrs!_WF p _)
 
 theorem updateAnalogParams_WF (gs : List Group) (frames : List Frame) (na : List Bytes) (h : WFs gs) :
@@ -439,9 +442,8 @@ theorem updateAnalogParams_WF (gs : List Group) (frames : List Frame) (na : List
   simp only
   have h1 := modParam_WF gs gA iUsed (·.setInts! [u64ToI32 (channelNames frames oldA na).length]) h (fun p => setInts!_WF p _)
   refine Outcome.all_andThen h1 fun ⟨_, iL⟩ _ => ?_
-  refine Outcome.all_andThen h1 fun ⟨_, iD⟩ _ => ?_
   simp only
-  have h3 := modParam_WF _ gA iD (·.setStrs! ((channelNames frames oldA na).map fun _ => []))
+  have h3 := modIfPresent_WF _ ANALOG DESCRIPTIONS gA (·.setStrs! ((channelNames frames oldA na).map fun _ => []))
     (modParam_WF _ gA iL (·.setStrs! (channelNames frames oldA na)) h1 (fun p => setStrs!_WF p _)) (fun p => setStrs!_WF p _)
   refine Outcome.all_andThen h3 fun ⟨_, iS⟩ _ => ?_
   refine Outcome.all_andThen h3 fun scales _ => ?_
@@ -453,9 +455,10 @@ theorem updateAnalogParams_WF (gs : List Group) (frames : List Frame) (na : List
   simp only
   have h5 := modParam_WF _ gA iO (·.setInts! (offs ++ List.replicate ((channelNames frames oldA na).length - offs.length) 0)) h4
     (fun p => setInts!_WF p _)
-  refine Outcome.all_andThen h5 fun ⟨_, iU⟩ _ => ?_
-  refine Outcome.all_andThen h5 fun units _ => ?_
-  exact modParam_WF _ _ _ _ h5 (fun p => setStrs!_WF p _)
+  split
+  · refine Outcome.all_andThen h5 fun units _ => ?_
+    exact modParam_WF _ _ _ _ h5 (fun p => setStrs!_WF p _)
+  · exact h5
 
 theorem updateHeader_groups (F : FloatOps) (s : C3D) (P : List Group → Prop) (h : P s.groups) :
     (updateHeader F s).All (fun c => P c.groups) := by
